@@ -33,6 +33,11 @@ def run(ctx):
     from ahbicht.expressions.condition_expression_parser import parse_condition_expression_to_tree
 
     built = prepare(ctx, ["Gen_logic", "Gen_ranges", "Gen_grammar"], ["Props/C08.vo", "Corr/Eval.vo"])
+    # several truth assignments in flight at once on ahbicht's own content-evaluation-result based evaluators (implementation-side oracle)
+    from vlib import cerconc
+
+    ctx.add_eval(cerconc.fc_oracle(ctx, "C08"))
+    evalimpl._configured = False  # pylint: disable=protected-access  (the oracle re-configured the injector)
     trees = fc_trees(ctx)
     terms, meta = [], []
     n_nontrivial = 0
